@@ -314,3 +314,146 @@ pub fn shapes(neighbours: bool) -> Vec<Universe> {
         ),
     ]
 }
+
+/// "late requirement" gadget `x:Always -> n:Output <- e0:Ephemeral` with `free` further slots
+/// below it: every kind vector for the free slots, every subset of the edges
+/// {e0 -> slot, x -> slot, slot -> later slot}.  When x changes, e0 is first judged
+/// unnecessary (its consumers validate), then required late; whatever hangs below e0 has by then
+/// been skipped, offered or started.  One universe per graph: a chain step can change inputs and
+/// delete outputs but not the graph.
+pub fn late_gadget(free: usize, x_edges: bool) -> Vec<Universe> {
+    let names = ["s", "t", "v", "w"];
+    let mut out = Vec::new();
+    for ks in kind_vectors(free) {
+        // candidate edges: (up, down) over indexes 0=x 1=n 2=e0 3.. = free slots
+        let mut cand: Vec<(usize, usize)> = Vec::new();
+        for i in 0..free {
+            cand.push((2, 3 + i));
+            if x_edges {
+                cand.push((0, 3 + i));
+            }
+            for j in (i + 1)..free {
+                cand.push((3 + i, 3 + j));
+            }
+        }
+        for es in 0..(1usize << cand.len()) {
+            let mut jobs = vec![JobDef::new("x", Kind::A), JobDef::new("n", Kind::O), JobDef::new("e0", Kind::E)];
+            for i in 0..free {
+                jobs.push(JobDef::new(names[i], ks[i]));
+            }
+            let mut edges = vec![
+                Edge { up: 0, down: 1, read: true, parts: vec![] },
+                Edge { up: 2, down: 1, read: true, parts: vec![] },
+            ];
+            let mut touched = vec![false; free];
+            let mut below_e0 = vec![false; free];
+            for (k, (u, d)) in cand.iter().enumerate() {
+                if es & (1 << k) != 0 {
+                    edges.push(Edge { up: *u, down: *d, read: true, parts: vec![] });
+                    if *u >= 3 {
+                        touched[*u - 3] = true;
+                    }
+                    touched[*d - 3] = true;
+                    if *u == 2 || (*u >= 3 && below_e0[*u - 3]) {
+                        below_e0[*d - 3] = true;
+                    }
+                }
+            }
+            // every free slot hangs (directly or not) below e0: anything else is a smaller gadget
+            // next to an unrelated job, which the slot families cover
+            if !below_e0.iter().all(|b| *b) {
+                continue;
+            }
+            let g = Graph { jobs, edges };
+            out.push(Universe {
+                label: format!("late{}{}:{}:{:b}", free, if x_edges { "x" } else { "" }, kind_label(&ks), es),
+                graphs: vec![g],
+            });
+        }
+    }
+    out
+}
+
+/// directed 6-7 job shapes (no neighbours: the second evaluation changes inputs and deletes outputs only)
+pub fn big_shapes() -> Vec<Universe> {
+    use Kind::*;
+    vec![
+        // two late-requirement gadgets in series through a skipped Output and a second Ephemeral
+        shape(
+            "late-late-7",
+            &[("x1", A), ("e", E), ("d1", O), ("o", O), ("e2", E), ("x2", A), ("d2", O)],
+            &[("x1", "d1"), ("e", "d1"), ("e", "o"), ("o", "e2"), ("e2", "d2"), ("x2", "d2")],
+            false,
+        ),
+        shape(
+            "late-chain-6",
+            &[("x1", A), ("e", E), ("d1", O), ("o", O), ("e2", E), ("d2", O)],
+            &[("x1", "d1"), ("e", "d1"), ("e", "o"), ("o", "e2"), ("e2", "d2"), ("d1", "d2")],
+            false,
+        ),
+        // two Ephemerals in a row in front of a late-invalidated consumer, second consumer behind a skipped Output
+        shape(
+            "late-EE-6",
+            &[("x", A), ("e0", E), ("e", E), ("d1", O), ("o", O), ("d2", O)],
+            &[("e0", "e"), ("e", "d1"), ("x", "d1"), ("e", "o"), ("o", "d2")],
+            false,
+        ),
+        // a late-required Ephemeral feeding two gadgets
+        shape(
+            "late-fan-7",
+            &[("x1", A), ("x2", A), ("e", E), ("d1", O), ("d2", O), ("o", O), ("d3", O)],
+            &[("x1", "d1"), ("e", "d1"), ("x2", "d2"), ("e", "d2"), ("e", "o"), ("o", "d3")],
+            false,
+        ),
+    ]
+}
+
+/// two late-requirement gadgets `x1:Always -> d1:Output`, `x2:Always -> d2:Output` and two
+/// Ephemerals above them: every subset of the edges {e1->e2, e1->d1, e1->d2, e2->d1, e2->d2,
+/// d1->e2, d1->d2} in which both Ephemerals have a consumer.  With two independent inputs the
+/// order in which they finish decides which Ephemeral is judged (un)necessary first.
+pub fn late_pair() -> Vec<Universe> {
+    let ids = [("x1", Kind::A), ("x2", Kind::A), ("e1", Kind::E), ("e2", Kind::E), ("d1", Kind::O), ("d2", Kind::O)];
+    let cand = [(2usize, 3usize), (2, 4), (2, 5), (3, 4), (3, 5), (4, 3), (4, 5)];
+    let mut out = Vec::new();
+    for es in 0..(1usize << cand.len()) {
+        let on = |k: usize| es & (1 << k) != 0;
+        // d1 -> e2 together with e2 -> d1 would be a cycle
+        if on(3) && on(5) {
+            continue;
+        }
+        if !(on(0) || on(1) || on(2)) || !(on(3) || on(4)) {
+            continue;
+        }
+        let jobs: Vec<JobDef> = ids.iter().map(|(i, k)| JobDef::new(i, *k)).collect();
+        let mut edges = vec![
+            Edge { up: 0, down: 4, read: true, parts: vec![] },
+            Edge { up: 1, down: 5, read: true, parts: vec![] },
+        ];
+        for (k, (u, d)) in cand.iter().enumerate() {
+            if on(k) {
+                edges.push(Edge { up: *u, down: *d, read: true, parts: vec![] });
+            }
+        }
+        out.push(Universe {
+            label: format!("latepair:{:07b}", es),
+            graphs: vec![Graph { jobs, edges }],
+        });
+    }
+    out
+}
+
+/// the late-requirement gadget with a volatile e0 (C16: a validated Ephemeral that is required late and
+/// then reports a changed output while jobs below it were already skipped or offered)
+pub fn late_gadget_volatile(free: usize, x_edges: bool) -> Vec<Universe> {
+    late_gadget(free, x_edges)
+        .into_iter()
+        .map(|mut u| {
+            for g in u.graphs.iter_mut() {
+                g.jobs[2].volatile = true;
+            }
+            u.label = format!("{}:volatile", u.label);
+            u
+        })
+        .collect()
+}
